@@ -144,6 +144,15 @@ PROBES = {
     "loop-body-end-then-end-on-one-line": ("judged",
         "start :: fn do\n    if true do loop do break end\n    end\nend\n",
         "start :: fn do\n    if true do loop do break end end\nend\n"),
+    # reported 2026-09-27 (corpus/c14/suggested_block_in_parens.diff): if_expression eats `do` and block() accepts a second
+    # one as its optional opener, so inside brackets (newlines skipped) a block statement that comes first in a branch
+    # loses its `do`.  To become "judged" when the fix is applied.
+    "block-statement-first-in-if-branch-inside-parens": ("unjudged",
+        "x :: if true do\n  do\n    a :: 1\n  end\n  b := 2\n  b\nelse do\n  3\nend\nstart :: fn do end\n",
+        "x :: (if true do\n  do\n    a :: 1\n  end\n  b := 2\n  b\nelse do\n  3\nend)\nstart :: fn do end\n"),
+    "block-statement-first-after-bare-else-inside-brackets": ("unjudged",
+        "x :: [if false do\n  3\nelse do\n  do\n    a :: 1\n  end\n  b := 2\n  b\nend]\nstart :: fn do end\n",
+        "x :: [if false do\n  3\nelse\n  do\n    a :: 1\n  end\n  b := 2\n  b\nend]\nstart :: fn do end\n"),
     "loop-body-statement-then-else-on-one-line": ("judged",
         "start :: fn do\n    x := 0\n    if true do\n        loop x < 3 x += 1\n    else\n        x = 2\n    end\nend\n",
         "start :: fn do\n    x := 0\n    if true do loop x < 3 x += 1 else x = 2 end\nend\n"),
